@@ -23,6 +23,52 @@ func (c11) ID() string { return "C11" }
 var wrappers = []string{"loop", "while", "for", "block", "if-then", "if-else", "match-arm", "match-default", "try", "catch", "call", "operand", "argument", "let-init"}
 var exits = []string{"break", "continue", "return", "return-value", "throw", "fatal"}
 
+// exprWrappers: further expression positions in which the construct can sit while already
+// evaluated operands of the unfinished enclosing expression wait (an exit out of them must leave
+// nothing behind, an exit caught inside them must keep them): the 2nd field of an object literal,
+// the 2nd element of a list literal, an index, the 2nd argument of a call of a declared function
+// and of a function value, the end of a range, the right hand side of a compound assignment to a
+// local and of plain/compound assignments to a member and to a list element.
+var exprWrappers = []string{"obj-field", "list-elem", "index", "fn-arg", "closure-arg", "range-end", "compound-assign", "member-assign", "member-compound", "index-assign", "index-compound"}
+
+// valueExits: exits whose own value expression leaves early: `return f()` and `throw(f())` where
+// f throws (the exception is raised while the exit statement is half executed; it must reach the
+// handler which encloses the statement).
+var valueExits = []string{"return-throw", "throw-nested"}
+
+var allWrappers = append(append([]string{}, wrappers...), exprWrappers...)
+var allExits = append(append([]string{}, exits...), valueExits...)
+
+func isIn(xs []string, x string) bool {
+	for _, y := range xs {
+		if x == y {
+			return true
+		}
+	}
+	return false
+}
+
+// inBase: the (stack, exit) pair belongs to the exhaustively enumerated base family.
+func inBase(stack []string, exit string) bool {
+	if !isIn(exits, exit) {
+		return false
+	}
+	for _, w := range stack {
+		if !isIn(wrappers, w) {
+			return false
+		}
+	}
+	return true
+}
+
+// sample sizes of the extended family (stacks deeper than 2 are sampled by VERIF_SEED)
+func sampleSizes(tier string) (d3, d4 int) {
+	if tier == "thorough" {
+		return 16000, 8000
+	}
+	return 1000, 0
+}
+
 func depth(tier string) int {
 	if tier == "thorough" {
 		return 4
@@ -31,13 +77,17 @@ func depth(tier string) int {
 }
 
 func (c11) Info(tier string) fw.Info {
+	d3, d4 := sampleSizes(tier)
 	return fw.Info{
 		Level: "exploration",
 		Rule: fmt.Sprintf("exhaustive enumeration of wrapper stacks of depth 1..%d over %v with each exit kind %v innermost, filtered to the statically legal ones (break/continue need a loop in the same function); "+
 			"around it a fixed scaffold: a local set before, trace tags before/inside/after every level, a second try and a second loop after the construct, then a final uncaught throw variant; "+
-			"each program runs on the VM (trace, outcome, residue, handlers) and on the interpreter and is compared with the reference evaluator. non-trivial = the exit statement was reached (its 'pre-exit' tag is in the model trace); distinct = distinct (stack, exit, variant)", depth(tier), wrappers, exits),
-		Assumptions: []string{"depth bound as stated; data-dependent exits are covered by the random programs of C01"},
-		Exhaustive:  true,
+			"extended family: the same scaffold over the wrappers %v in addition and the exits %v in addition (every combination which is not in the base family): exhaustive for depth 1..2, a VERIF_SEED-selected sample of %d stacks of depth 3 and %d of depth 4; "+
+			"each program runs on the VM (trace, outcome, residue, handlers) and on the interpreter and is compared with the reference evaluator. non-trivial = the exit statement was reached (its 'pre-exit' tag is in the model trace); distinct = distinct (stack, exit, variant)", depth(tier), wrappers, exits, exprWrappers, valueExits, d3, d4),
+		Assumptions: []string{"depth bound as stated; data-dependent exits are covered by the random programs of C01",
+			"exhaustive holds for the base family (all depths stated) and for depth 1..2 of the extended family; deeper stacks of the extended family are a seeded sample",
+			"expression positions of type never which the unchanged tree does not take (index, object-literal field) are only exercised behind a condition"},
+		Exhaustive:   true,
 		CaseTimeoutS: 60,
 		BatchSize:    250,
 	}
@@ -48,7 +98,18 @@ type Payload struct {
 	Stack   []string `json:"stack"` // outermost first
 	Exit    string   `json:"exit"`
 	Variant string   `json:"variant"` // "" | "uncaught-after"
+	// Guarded: the expression wrappers put their content behind a condition which holds
+	// (`{ if keep > 0 { .. } v }`), so that the block is of type int although its content always
+	// leaves; otherwise the content stands directly in the block, which is then of type never.
+	Guarded bool `json:"guarded,omitempty"`
 }
+
+// alwaysGuarded: positions in which the unchanged tree cannot take an expression of type never:
+// the analyzer rejects an index of type never ("A value of type 'list' cannot be indexed by
+// 'never'"), and the bytecode compiler dies in value.ZeroValue ("Invalid type: never") for an
+// object literal with a field initialiser of type never (`new { a: { return; 1 } }`; a genuine
+// defect of the compiler, reported, and therefore kept out of the workload).
+var alwaysGuarded = []string{"obj-field", "index"}
 
 type builder struct {
 	fns   []*prog.Func
@@ -61,6 +122,118 @@ func (b *builder) tag(s string) prog.Stmt {
 }
 
 func (b *builder) id() int { b.n++; return b.n }
+
+func (b *builder) hasFn(name string) bool {
+	for _, f := range b.fns {
+		if f.Name == name {
+			return true
+		}
+	}
+	return false
+}
+
+// thrower declares (once) a function of the given result type which throws instead of returning.
+func (b *builder) thrower(ret *prog.Type) string {
+	name := "thrower_" + ret.String()
+	if !b.hasFn(name) {
+		f := &prog.Func{Name: name, Ret: ret, Body: &prog.Block{Stmts: []prog.Stmt{
+			b.tag("in-" + name),
+			prog.ExprStmt{X: prog.Builtin{Name: "throw", Args: []prog.Expr{prog.StrLit{V: "thrown-in-value"}}}},
+			b.tag("post-throw-unreachable"),
+		}}}
+		if ret.K == prog.TInt {
+			f.Body.Tail = prog.IntLit{V: 9}
+		}
+		b.fns = append(b.fns, f)
+	}
+	return name
+}
+
+// pack3 declares (once) fn pack3(a: int, b: int, c: int) -> int { a * 100 + b * 10 + c }.
+func (b *builder) pack3() string {
+	if !b.hasFn("pack3") {
+		va, vb, vc := prog.Var{Name: "a", Ty: prog.Int}, prog.Var{Name: "b", Ty: prog.Int}, prog.Var{Name: "c", Ty: prog.Int}
+		b.fns = append(b.fns, &prog.Func{Name: "pack3", Ret: prog.Int,
+			Params: []prog.Param{{Name: "a", T: prog.Int}, {Name: "b", T: prog.Int}, {Name: "c", T: prog.Int}},
+			Body:   &prog.Block{Tail: prog.Infix{Op: "+", L: prog.Infix{Op: "+", L: prog.Infix{Op: "*", L: va, R: prog.IntLit{V: 100}}, R: prog.Infix{Op: "*", L: vb, R: prog.IntLit{V: 10}}}, R: vc}}})
+	}
+	return "pack3"
+}
+
+func say(args ...prog.Expr) prog.Stmt {
+	return prog.ExprStmt{X: prog.Builtin{Name: "println", Args: args}}
+}
+
+// exprWrapper puts the block (which gets an int tail) into an expression position in which
+// operands of the enclosing expression are pending, and prints the value of that expression (and
+// of its neighbours) behind it.
+func (b *builder) exprWrapper(w string, k int, out string, blk *prog.Block) []prog.Stmt {
+	outS := prog.StrLit{V: out}
+	v := fmt.Sprintf("t%d", k)
+	intList := prog.ListOf(prog.Int)
+	switch w {
+	case "obj-field":
+		blk.Tail = prog.IntLit{V: 2}
+		o := prog.ObjLit{Fields: []prog.FieldInit{{Name: "a", V: prog.IntLit{V: 1}}, {Name: "b", V: blk}, {Name: "c", V: prog.IntLit{V: 3}}}}
+		ov := prog.Var{Name: v, Ty: o.T()}
+		return []prog.Stmt{prog.Let{Name: v, V: o}, say(outS, prog.Member{X: ov, Name: "a"}, prog.Member{X: ov, Name: "b"}, prog.Member{X: ov, Name: "c"}, keepVar)}
+	case "list-elem":
+		blk.Tail = prog.IntLit{V: 2}
+		l := prog.ListLit{Elems: []prog.Expr{prog.IntLit{V: 1}, blk, prog.IntLit{V: 3}}, Ty: intList}
+		return []prog.Stmt{prog.Let{Name: v, V: l}, say(outS, prog.Var{Name: v, Ty: intList}, keepVar)}
+	case "index":
+		blk.Tail = prog.IntLit{V: 1}
+		lv := prog.Var{Name: fmt.Sprintf("l%d", k), Ty: intList}
+		return []prog.Stmt{
+			prog.Let{Name: lv.Name, V: prog.ListLit{Elems: []prog.Expr{prog.IntLit{V: 10}, prog.IntLit{V: 20}, prog.IntLit{V: 30}}, Ty: intList}},
+			prog.Let{Name: v, V: prog.Index{X: lv, I: blk}},
+			say(outS, prog.Var{Name: v, Ty: prog.Int}, lv, keepVar)}
+	case "fn-arg":
+		blk.Tail = prog.IntLit{V: 2}
+		return []prog.Stmt{prog.Let{Name: v, V: prog.Call{Fn: b.pack3(), Args: []prog.Expr{prog.IntLit{V: 1}, blk, prog.IntLit{V: 3}}, Ret: prog.Int}},
+			say(outS, prog.Var{Name: v, Ty: prog.Int}, keepVar)}
+	case "closure-arg":
+		blk.Tail = prog.IntLit{V: 2}
+		g := fmt.Sprintf("g%d", k)
+		va, vb := prog.Var{Name: "a", Ty: prog.Int}, prog.Var{Name: "b", Ty: prog.Int}
+		lit := prog.FnLit{Params: []prog.Param{{Name: "a", T: prog.Int}, {Name: "b", T: prog.Int}}, Ret: prog.Int,
+			Body: &prog.Block{Tail: prog.Infix{Op: "+", L: prog.Infix{Op: "*", L: va, R: prog.IntLit{V: 10}}, R: vb}}}
+		return []prog.Stmt{prog.Let{Name: g, V: lit},
+			prog.Let{Name: v, V: prog.Call{Fn: g, Args: []prog.Expr{prog.IntLit{V: 1}, blk}, Ret: prog.Int}},
+			say(outS, prog.Var{Name: v, Ty: prog.Int}, keepVar)}
+	case "range-end":
+		blk.Tail = prog.IntLit{V: 2}
+		q := fmt.Sprintf("q%d", k)
+		return []prog.Stmt{prog.Let{Name: v, V: prog.RangeLit{A: prog.IntLit{V: 0}, B: blk}},
+			prog.For{Name: q, Iter: prog.Var{Name: v, Ty: prog.Range}, Body: &prog.Block{Stmts: []prog.Stmt{say(prog.StrLit{V: "item-" + out}, prog.Var{Name: q, Ty: prog.Int}, keepVar)}}},
+			tagKeep(out)}
+	case "compound-assign":
+		blk.Tail = prog.IntLit{V: 2}
+		tv := prog.Var{Name: v, Ty: prog.Int}
+		return []prog.Stmt{prog.Let{Name: v, V: prog.IntLit{V: 40}}, prog.ExprStmt{X: prog.Assign{Op: "+=", Target: tv, V: blk}}, say(outS, tv, keepVar)}
+	case "member-assign", "member-compound":
+		blk.Tail = prog.IntLit{V: 5}
+		o := prog.ObjLit{Fields: []prog.FieldInit{{Name: "f", V: prog.IntLit{V: 1}}, {Name: "g", V: prog.IntLit{V: 2}}}}
+		ov := prog.Var{Name: v, Ty: o.T()}
+		op := "="
+		if w == "member-compound" {
+			op = "+="
+		}
+		return []prog.Stmt{prog.Let{Name: v, V: o}, prog.ExprStmt{X: prog.Assign{Op: op, Target: prog.Member{X: ov, Name: "g"}, V: blk}},
+			say(outS, prog.Member{X: ov, Name: "f"}, prog.Member{X: ov, Name: "g"}, keepVar)}
+	case "index-assign", "index-compound":
+		blk.Tail = prog.IntLit{V: 5}
+		lv := prog.Var{Name: v, Ty: intList}
+		op := "="
+		if w == "index-compound" {
+			op = "+="
+		}
+		return []prog.Stmt{prog.Let{Name: v, V: prog.ListLit{Elems: []prog.Expr{prog.IntLit{V: 10}, prog.IntLit{V: 20}}, Ty: intList}},
+			prog.ExprStmt{X: prog.Assign{Op: op, Target: prog.Index{X: lv, I: prog.IntLit{V: 1}}, V: blk}},
+			say(outS, lv, keepVar)}
+	}
+	panic("c11: unknown wrapper " + w)
+}
 
 var keepVar = prog.Var{Name: "keep", Ty: prog.Int}
 
@@ -97,6 +270,9 @@ func Tags(stack []string, exit string) []string {
 	}
 	// which wrappers does the exit cross?
 	crossed := []string{}
+	if isIn(valueExits, exit) {
+		add("exit-in-exit-value")
+	}
 	switch exit {
 	case "break", "continue":
 		for i := len(stack) - 1; i >= 0; i-- {
@@ -112,7 +288,7 @@ func Tags(stack []string, exit string) []string {
 			}
 			crossed = append(crossed, stack[i])
 		}
-	case "throw":
+	case "throw", "return-throw", "throw-nested":
 		for i := len(stack) - 1; i >= 0; i-- {
 			if stack[i] == "try" {
 				break
@@ -126,18 +302,18 @@ func Tags(stack []string, exit string) []string {
 		switch w {
 		case "try":
 			add("exit-out-of-try")
-		case "operand", "argument":
+		case "operand", "argument", "obj-field", "list-elem", "index", "fn-arg", "closure-arg", "range-end", "compound-assign", "member-assign", "member-compound", "index-assign", "index-compound":
 			// a throw that is caught restores the operand stack height recorded by its handler;
 			// only jumps (break/continue/return) leave the pending operands behind
-			if exit != "throw" {
+			if exit != "throw" && !isIn(valueExits, exit) {
 				add("exit-from-expr-context")
 			}
 		case "call":
-			if exit == "throw" {
+			if exit == "throw" || isIn(valueExits, exit) {
 				add("throw-across-call")
 			}
 		case "for":
-			if exit == "throw" || exit == "return" || exit == "return-value" {
+			if exit == "throw" || exit == "return" || exit == "return-value" || isIn(valueExits, exit) {
 				add("exit-out-of-for")
 			}
 		}
@@ -167,10 +343,6 @@ func Build(p Payload) *prog.Program {
 		l := prog.ListLit{Elems: []prog.Expr{prog.IntLit{V: 1}}, Ty: prog.ListOf(prog.Int)}
 		inner = append(inner, prog.Let{Name: "oob", V: l}, prog.ExprStmt{X: prog.Builtin{Name: "println", Args: []prog.Expr{prog.Index{X: prog.Var{Name: "oob", Ty: prog.ListOf(prog.Int)}, I: prog.IntLit{V: 5}}}}})
 	}
-	inner = append(inner, b.tag("post-exit-unreachable"))
-	// does the innermost function return a value? (return-value needs an int function)
-	retValue := p.Exit == "return-value"
-	cur := inner
 	// the function that directly contains the exit: index of the innermost "call" wrapper
 	innermostCall := -1
 	for i := len(p.Stack) - 1; i >= 0; i-- {
@@ -179,6 +351,23 @@ func Build(p Payload) *prog.Program {
 			break
 		}
 	}
+	// does the innermost function return a value? (return-value needs an int function)
+	retValue := p.Exit == "return-value"
+	switch p.Exit {
+	case "return-throw":
+		// the value of the return raises the exception: in a function with a result if there is
+		// one around the exit, otherwise in main (a null-typed value)
+		if innermostCall >= 0 {
+			retValue = true
+			inner = append(inner, prog.Return{V: prog.Call{Fn: b.thrower(prog.Int), Ret: prog.Int}})
+		} else {
+			inner = append(inner, prog.Return{V: prog.Call{Fn: b.thrower(prog.Null), Ret: prog.Null}})
+		}
+	case "throw-nested":
+		inner = append(inner, prog.ExprStmt{X: prog.Builtin{Name: "throw", Args: []prog.Expr{prog.Call{Fn: b.thrower(prog.Int), Ret: prog.Int}}}})
+	}
+	inner = append(inner, b.tag("post-exit-unreachable"))
+	cur := inner
 	if retValue && innermostCall >= 0 {
 		fnRet[innermostCall] = true
 	}
@@ -244,6 +433,12 @@ func Build(p Payload) *prog.Program {
 			v := fmt.Sprintf("t%d", k)
 			blk.Tail = prog.IntLit{V: 4}
 			cur = []prog.Stmt{prog.Let{Name: v, V: blk}, prog.ExprStmt{X: prog.Builtin{Name: "println", Args: []prog.Expr{prog.StrLit{V: out}, prog.Var{Name: v, Ty: prog.Int}, keepVar}}}}
+		default:
+			if p.Guarded || isIn(alwaysGuarded, w) {
+				guard := prog.If{Cond: prog.Infix{Op: ">", L: keepVar, R: prog.IntLit{V: 0}}, Then: &prog.Block{Stmts: cur}}
+				blk.Stmts = []prog.Stmt{tagKeep(in), prog.ExprStmt{X: guard}, b.tag("tail-" + in)}
+			}
+			cur = b.exprWrapper(w, k, out, blk)
 		}
 	}
 	main := &prog.Func{Name: "main", Ret: prog.Null, Body: &prog.Block{}}
@@ -276,7 +471,9 @@ func Build(p Payload) *prog.Program {
 	return &prog.Program{Modules: []*prog.Module{mod}, Entry: "main"}
 }
 
-func enumerate(d int, f func(stack []string)) {
+func enumerate(d int, f func(stack []string)) { enumerateOver(wrappers, d, f) }
+
+func enumerateOver(ws []string, d int, f func(stack []string)) {
 	var rec func(stack []string)
 	rec = func(stack []string) {
 		if len(stack) > 0 {
@@ -285,11 +482,23 @@ func enumerate(d int, f func(stack []string)) {
 		if len(stack) == d {
 			return
 		}
-		for _, w := range wrappers {
+		for _, w := range ws {
 			rec(append(append([]string{}, stack...), w))
 		}
 	}
 	rec(nil)
+}
+
+// admissible: the exit can be written at the bottom of this stack.
+func admissible(stack []string, ex string) bool {
+	if !legal(stack, ex) {
+		return false
+	}
+	if ex == "return-value" {
+		// needs an enclosing function that can return a value: a call wrapper
+		return isIn(stack, "call")
+	}
+	return true
 }
 
 func (c11) Cases(tier string, seed uint64) []fw.Case {
@@ -298,20 +507,8 @@ func (c11) Cases(tier string, seed uint64) []fw.Case {
 	n := 0
 	enumerate(d, func(stack []string) {
 		for _, ex := range exits {
-			if !legal(stack, ex) {
+			if !admissible(stack, ex) {
 				continue
-			}
-			if ex == "return-value" {
-				// needs an enclosing function that can return a value: a call wrapper
-				has := false
-				for _, w := range stack {
-					if w == "call" {
-						has = true
-					}
-				}
-				if !has {
-					continue
-				}
 			}
 			variants := []string{""}
 			if len(stack) <= 2 {
@@ -324,6 +521,50 @@ func (c11) Cases(tier string, seed uint64) []fw.Case {
 			}
 		}
 	})
+	// extended family: everything over (allWrappers, allExits) which is not in the base family.
+	// Depth 1..2 exhaustively, ...
+	n = 0
+	mk := func(stack []string, ex, v string, guarded bool) {
+		p := Payload{Stack: stack, Exit: ex, Variant: v, Guarded: guarded}
+		if guarded {
+			v += "guarded"
+		}
+		cases = append(cases, fw.MkCase(fmt.Sprintf("c11x-%d-%s-%s-%s", n, strings.Join(stack, "."), ex, v), "nest", p, Tags(stack, ex)...))
+		n++
+	}
+	enumerateOver(allWrappers, 2, func(stack []string) {
+		for _, ex := range allExits {
+			if inBase(stack, ex) || !admissible(stack, ex) {
+				continue
+			}
+			mk(stack, ex, "", false)
+			if len(stack) == 1 {
+				mk(stack, ex, "uncaught-after", false)
+			}
+		}
+	})
+	// ... deeper stacks as a sample selected by the seed (distinct, in drawing order).
+	d3, d4 := sampleSizes(tier)
+	rng := fw.NewRng(seed ^ 0xC11C11)
+	seen := map[string]bool{}
+	for _, lvl := range []struct{ depth, want int }{{3, d3}, {4, d4}} {
+		got := 0
+		for tries := 0; got < lvl.want && tries < lvl.want*40; tries++ {
+			stack := make([]string, lvl.depth)
+			for i := range stack {
+				stack[i] = fw.Pick(rng, allWrappers)
+			}
+			ex := fw.Pick(rng, allExits)
+			guarded := rng.Bool()
+			key := strings.Join(stack, ".") + "/" + ex
+			if seen[key] || inBase(stack, ex) || !admissible(stack, ex) {
+				continue
+			}
+			seen[key] = true
+			mk(stack, ex, "", guarded)
+			got++
+		}
+	}
 	return cases
 }
 
@@ -343,8 +584,15 @@ func (c11) Run(c fw.Case) fw.Result {
 	}
 	res.Nontrivial = strings.Contains(o.Model.Effects, "pre-exit")
 	res.Obs = map[string]int64{"catch_events": o.VM.Catches, "vm_steps": o.VM.Steps}
+	where := fmt.Sprintf("exit %q at the bottom of the nesting %v: ", p.Exit, p.Stack)
 	if why != "" {
-		res.Verdict, res.Sig, res.Why = fw.Violated, "vm:"+sig, why
+		if sig == "residue" {
+			why = "the run ends normally with the expected trace, but the exits left state behind on the VM (operand stack, call stack, memory pointer and handler stack must all be back at their initial height; Stack counts abandoned operands, Handlers catch-blocks which are still registered): " + why
+		}
+		if sig == "effects" {
+			why = firstDiff(o.Model.Effects, o.VM.Log.Render(), "VM") + why
+		}
+		res.Verdict, res.Sig, res.Why = fw.Violated, "vm:"+sig, where+why
 		res.Detail = map[string]any{"source": o.Src["main"]}
 	}
 	// interpreter side
@@ -356,7 +604,7 @@ func (c11) Run(c fw.Case) fw.Result {
 	case tr.Outcome.Class == "go-panic" || tr.Outcome.Class == "step-budget":
 		twhy, tsig = "interpreter: "+tr.Outcome.String(), "tree:"+tr.Outcome.Class
 	case te != o.Model.Effects:
-		twhy, tsig = fmt.Sprintf("interpreter trace differs:\n--- model\n%s\n--- tree\n%s", util.Clip(o.Model.Effects, 1200), util.Clip(te, 1200)), "tree:effects"
+		twhy, tsig = firstDiff(o.Model.Effects, te, "interpreter")+fmt.Sprintf("interpreter trace differs:\n--- model\n%s\n--- tree\n%s", util.Clip(o.Model.Effects, 1200), util.Clip(te, 1200)), "tree:effects"
 	case o.Model.Class != tr.Outcome.Class || (o.Model.Class == "fatal" && o.Model.Kind != tr.Outcome.Kind):
 		twhy, tsig = fmt.Sprintf("interpreter outcome %s, model %s/%s", tr.Outcome, o.Model.Class, o.Model.Kind), "tree:outcome"
 	case o.Model.Kind == "UncaughtThrow" && o.Model.Message != tr.Outcome.Message:
@@ -364,9 +612,9 @@ func (c11) Run(c fw.Case) fw.Result {
 	}
 	if twhy != "" {
 		if res.Verdict == fw.Violated {
-			res.More = append(res.More, fw.SubViolation{Why: twhy, Sig: tsig})
+			res.More = append(res.More, fw.SubViolation{Why: where + twhy, Sig: tsig})
 		} else {
-			res.Verdict, res.Sig, res.Why = fw.Violated, tsig, twhy
+			res.Verdict, res.Sig, res.Why = fw.Violated, tsig, where+twhy
 			res.Detail = map[string]any{"source": o.Src["main"]}
 		}
 	}
@@ -374,6 +622,23 @@ func (c11) Run(c fw.Case) fw.Result {
 		res.Sample = map[string]any{"stack": p.Stack, "exit": p.Exit, "source": o.Src["main"], "model_trace": o.Model.Effects}
 	}
 	return res
+}
+
+// firstDiff names the first trace line in which the engine departs from the model.
+func firstDiff(model, got, who string) string {
+	ml, gl := strings.Split(model, "\n"), strings.Split(got, "\n")
+	for i := 0; ; i++ {
+		switch {
+		case i >= len(ml) && i >= len(gl):
+			return ""
+		case i >= len(gl):
+			return fmt.Sprintf("after line %d the %s trace ends, the model continues with %q; ", i, who, ml[i])
+		case i >= len(ml):
+			return fmt.Sprintf("after line %d the model trace ends, the %s continues with %q; ", i, who, gl[i])
+		case ml[i] != gl[i]:
+			return fmt.Sprintf("trace line %d: model %q, %s %q; ", i+1, ml[i], who, gl[i])
+		}
+	}
 }
 
 func (c11) OnCrash(c fw.Case, cr fw.Crash) fw.Result {
